@@ -115,6 +115,25 @@ def composite_family(ctx, drv):
     n = c02_cases.run_cases(ctx.seed, ctx.tier, on_case)
     ctx.count("composite_cases", n)
     if drv.available():
+        # decoding reads the same bits back: the decoder's result on the produced PDU vs the model's decoder
+        dlines, dmeta = [], []
+        for (i, family, comp, v, trig, r) in meta:
+            if r.ok and r.warns == 0 and S.modelled(comp):
+                dlines.append(S.decode_line(comp, r.pdu))
+                dmeta.append((comp, v, trig, r))
+        dreplies = drv.query(dlines)
+        for (comp, v, trig, r), mrep in zip(dmeta, dreplies):
+            if mrep in ("(unsupported)", "(bad-args)"):
+                ctx.count("decode_model_unsupported")
+                continue
+            ctx.traces += 1
+            irep = O.reply_decode(r.msg)
+            if irep != mrep:
+                if r.msg.ok and mrep.startswith("(ok "):
+                    rep.report("decode-reads-same-bits", "decoded-value-differs-from-model", comp, v, trig,
+                               {"pdu": r.pdu.hex(), "impl": irep[:300], "model": mrep[:300]})
+                else:
+                    ctx.disagree("decode-after-encode", {"sexp": S.composite(comp)[:600], "pdu": r.pdu.hex()}, mrep[:400], irep[:400])
         replies = drv.query(lines)
         for (i, family, comp, v, trig, r), rep_line in zip(meta, replies):
             if not rep_line.startswith("(ok "):
